@@ -159,4 +159,15 @@ theorem toM_conjT (m n : Nat) (A : NMat ℂ) : toM n m (conjT m n A) = (toM m n 
   ext i j
   simp [toM, conjT, NMat.get_ofFn_fin, Matrix.conjTranspose_apply, CxOps.conj]
 
+/-- weighted simplex: `Σ w_i (p_i / w_i) = Σ p_i` for non-zero weights -/
+theorem weightedProb_sum (n : Nat) (p w : Nat → ℝ) (hw : ∀ i, i < n → w i ≠ 0) :
+    ∑ i ∈ range n, w i * weightedProb p w i = ∑ i ∈ range n, p i := by
+  refine Finset.sum_congr rfl (fun i hi => ?_)
+  unfold weightedProb
+  have := hw i (Finset.mem_range.1 hi)
+  field_simp
+
+theorem weightedProb_nonneg (p w : Nat → ℝ) (i : Nat) (hp : 0 ≤ p i) (hw : 0 < w i) : 0 ≤ weightedProb p w i := by
+  unfold weightedProb; positivity
+
 end Numqi.Manifold
